@@ -20,21 +20,7 @@ class C18(core.Property):
     audit_imports = ["HappyProofs.C18.Props"]
     lean_files = ["HappyModel/C18/*.lean", "HappyProofs/C18/*.lean", "HappyModel/Proto.lean", "Driver/C18.lean"]
     theorems = []  # filled from THEOREMS below
-    partial_theorems = {
-        "HappyModel.C18.store_trace_satisfies_spec_given_round_facts":
-            "full statement store_trace_satisfies_spec_full (judgeStore of the model's transcript = none, every well-formed script) "
-            "is proved UNDER ONE HYPOTHESIS about a single lossless round, RoundFacts: in the state reached by any well-formed script, "
-            "(a) what the round owes flows (the ticking store's knowledge of every key reaches the chosen peer, and the peer's reaches "
-            "the ticking store when an answer is owed) and (b) after the round a store knows only what some store knew before. "
-            "Proved unconditionally: all per-step clauses, the pre/suffix plumbing, the final clause given UnionAfter "
-            "(store_trace_satisfies_spec_given_union), what unionAll knows (unionAll_know), constancy of the peer lists, and the "
-            "induction over the trailing rounds (unionAfter_of_roundFacts: RoundFacts ⇒ UnionAfter). Gap: RoundFacts itself. Since proved towards it: the "
-            "freshness invariant with its per-step preservation (fresh_next / fresh_run / store_fresh_entities: a message entity not "
-            "yet created has received nothing) and fact (b) for any state that satisfies it (round_learns_only_known: after a lossless "
-            "round a store knows only what some store knew). Still missing: fact (a) (the explicit per-key merges of a round — push "
-            "built, push merged, answer built, answer merged, with the answer-owed branch — and from them the owed knowledge flow), "
-            "and re-running the induction over the rounds with freshness carried along (RoundFacts quantifies over TInv states only)",
-    }
+    partial_theorems = {}
     variants = ["repaired", "current"]   # store family: adoption of a peer's key (fixes/C18-store-adopts-remote-node-id)
     quick_cases = 4500
     thorough_cases = 100000
@@ -82,17 +68,16 @@ class C18(core.Property):
         "store_gossip_phase_converges: the script ends in a phase without client writes (ticks, deliveries, lossless rounds); the "
         "judge's liveness clause store/gossip/no-convergence-after-heal-and-rounds uses the flows a lossless round owes by the "
         "script and the peer lists (push to the chosen peer, answer when the peer lists the sender), the theorem the merges the "
-        "model performs through its messages (`gossipPairs`); that both have the same reach is tested, not proved",
+        "model performs through its messages (`gossipPairs`); the judge's clause itself is discharged on the model's transcript "
+        "at knowledge level by union_after_rounds / store_trace_satisfies_spec (per key the two reaches differ for unheld keys)",
         "clocks_trace_satisfies_spec: the observation of an event is (L, V, H of the model's record, the dict clocks' verdicts against "
         "all events oldest first); the transcript prints the first n components of V (all components when every event's node is < n)",
-        "store judge on the model's own transcript (traceObs = the judge-visible projection of Driver.runStore's lines, by "
-        "construction, not proved at string level): for every well-formed script (WFPeers / WFStep: stores named by the script "
-        "and the peer lists are < n) all per-step clauses are proved accepted (store_trace_satisfies_spec_steps), judgeStore's "
-        "pre/suffix split is proved to be a split of the script, and the final clause "
-        "store/gossip/no-convergence-after-heal-and-rounds is proved never to fire GIVEN the knowledge statement UnionAfter "
-        "(store_trace_satisfies_spec_given_union); UnionAfter is in turn proved from the single-round statement RoundFacts (store_trace_satisfies_spec_given_round_facts), which is the one remaining unproved obligation — the literal "
-        "'same reach' formulation is false per key (a store that does not hold a key emits no merge for it), the knowledge-level "
-        "one is the right statement",
+        "store_trace_satisfies_spec (the store judge returns no violation on the model's own transcript: all per-step clauses "
+        "and the final liveness clause) is proved for every well-formed script — WFPeers / WFStep: the stores named by the "
+        "script and the peer lists are < n, which the generator guarantees; no bound on keys is needed. traceObs / storeObs are "
+        "the judge-visible projection of Driver.runStore's lines by construction (not proved at string level). The older "
+        "`def store_trace_satisfies_spec_full` in Props.lean states the same with the well-formedness written as a match and an "
+        "extra key < nkeys premise; it is implied by store_trace_satisfies_spec but left as a def (Props.lean is frozen)",
     ]
 
     # ------------------------------------------------------------------ generation
@@ -736,6 +721,9 @@ THEOREMS = [
     "HappyModel.C18.store_trace_satisfies_spec_given_round_facts",
     "HappyModel.C18.store_fresh_entities",
     "HappyModel.C18.round_learns_only_known",
+    "HappyModel.C18.round_flows",
+    "HappyModel.C18.union_after_rounds",
+    "HappyModel.C18.store_trace_satisfies_spec",
 ]
 C18.theorems = THEOREMS
 PROPERTY = C18()
